@@ -107,13 +107,31 @@ func (a *snapApp) LoadSnapshotChunk(req abci.RequestLoadSnapshotChunk) abci.Resp
 type wrapReactor struct {
 	p2p.Reactor
 	name     string
+	entered  int64
 	returned int64
 	panicked int64
 	lastCh   int32
+	maxIn    int64    // most Receive calls in flight at once
+	perPeer  sync.Map // p2p.ID -> *int64: Receive calls completed (returned or panicked) for that peer
 }
 
-func (w *wrapReactor) note(ch byte, ok *bool) {
+func (w *wrapReactor) enter() {
+	e := atomic.AddInt64(&w.entered, 1)
+	in := e - atomic.LoadInt64(&w.returned) - atomic.LoadInt64(&w.panicked)
+	for {
+		old := atomic.LoadInt64(&w.maxIn)
+		if in <= old || atomic.CompareAndSwapInt64(&w.maxIn, old, in) {
+			break
+		}
+	}
+}
+
+func (w *wrapReactor) note(ch byte, peer p2p.Peer, ok *bool) {
 	atomic.StoreInt32(&w.lastCh, int32(ch))
+	if peer != nil {
+		v, _ := w.perPeer.LoadOrStore(peer.ID(), new(int64))
+		atomic.AddInt64(v.(*int64), 1)
+	}
 	if *ok {
 		atomic.AddInt64(&w.returned, 1)
 	} else {
@@ -121,9 +139,23 @@ func (w *wrapReactor) note(ch byte, ok *bool) {
 	}
 }
 
+// inFlight = Receive calls that were entered and have neither returned nor panicked.
+func (w *wrapReactor) inFlight() int64 {
+	r, p := atomic.LoadInt64(&w.returned), atomic.LoadInt64(&w.panicked)
+	return atomic.LoadInt64(&w.entered) - r - p
+}
+
+func (w *wrapReactor) doneFor(id p2p.ID) int64 {
+	if v, ok := w.perPeer.Load(id); ok {
+		return atomic.LoadInt64(v.(*int64))
+	}
+	return 0
+}
+
 func (w *wrapReactor) ReceiveEnvelope(e p2p.Envelope) {
 	ok := false
-	defer w.note(e.ChannelID, &ok)
+	w.enter()
+	defer w.note(e.ChannelID, e.Src, &ok)
 	if er, is := w.Reactor.(p2p.EnvelopeReceiver); is {
 		er.ReceiveEnvelope(e)
 	} else {
@@ -142,7 +174,8 @@ func (w *wrapReactor) ReceiveEnvelope(e p2p.Envelope) {
 
 func (w *wrapReactor) Receive(ch byte, peer p2p.Peer, b []byte) {
 	ok := false
-	defer w.note(ch, &ok)
+	w.enter()
+	defer w.note(ch, peer, &ok)
 	w.Reactor.Receive(ch, peer, b)
 	ok = true
 }
@@ -502,6 +535,16 @@ func (n *n3Node) disconnect(from *p2p.Switch) bool {
 }
 
 func (n *n3Node) nodeHasPeer(sw *p2p.Switch) bool { return n.sw.Peers().Has(sw.NodeInfo().ID()) }
+
+// newFlooder starts one more hostile switch (each flooding peer is a node of its own).
+func (n *n3Node) newFlooder(i int) *p2p.Switch {
+	sw := p2p.MakeSwitch(n.config.P2P, 10+i, "testing", "123.123.123", func(_ int, sw *p2p.Switch) *p2p.Switch {
+		sw.AddReactor("c17", newPeerReactor(false))
+		return sw
+	})
+	must(sw.Start())
+	return sw
+}
 
 func (n *n3Node) receiveCount(reactor string) (int64, int64) {
 	w := n.wraps[reactor]
